@@ -109,3 +109,57 @@ def continue_conditions(fn, loop):
         else:
             out.append(("?",))
     return out
+
+
+def closure(F, fn, depth=2, same_class_only=True):
+    """fn and the repository helpers it calls on the same object or statically (transitively, up to `depth`), in call
+    order: the code a "split function" / "extract method" refactoring may have moved statements into."""
+    out = [fn]
+    seen = {fn.key}
+
+    def walk(f, d):
+        if d == 0:
+            return
+        for nd in sorted([n for n in f.nodes if n["k"] in CALLS], key=lambda n: n["id"]):
+            if nd["k"] == "CXXMemberCallExpr" and "obj" in nd and f.term(nd["obj"]) != ("this",):
+                continue
+            for cal in F.callees(nd):
+                if not cal.cfg or cal.key in seen or cal.d.get("ctor") or cal.d.get("virtual"):
+                    continue
+                if same_class_only and fn.cls and cal.cls and cal.cls != fn.cls:
+                    continue
+                if not cal.cls and cal.file != fn.file:
+                    continue            # free helpers: only file-local ones
+                seen.add(cal.key)
+                out.append(cal)
+                walk(cal, d - 1)
+    walk(fn, depth)
+    return out
+
+
+def searches(F, fn):
+    """Existential searches over a range in fn, whatever their form. Each: dict(kind, range, elem, pred, node) where
+    pred is the predicate's value term over the element variable `elem`:
+      kind "algo:any_of" / "algo:find_if" / ...  - std algorithm over (R.begin(), R.end(), lambda)
+      kind "loop"                                - range-for over R whose body is `if (pred) <leave>`"""
+    out = []
+    for nd in fn.nodes:
+        if nd["k"] in CALLS and (nd.get("fq") or "") in ("std::any_of", "std::none_of", "std::all_of", "std::find_if", "std::find_if_not", "std::count_if") \
+                and len(nd.get("args", [])) == 3:
+            a = [fn.term(x) for x in nd["args"]]
+            if a[0][0] == "call" and a[0][1].endswith("begin") and a[1][0] == "call" and a[1][1].endswith("end") and a[0][2] == a[1][2] and a[2][0] == "lambda":
+                lam = F.functions.get(a[2][1])
+                if lam is not None and len(lam.params) == 1:
+                    rets = [x for x in lam.nodes if x["k"] == "ReturnStmt" and "value" in x]
+                    if len(rets) == 1:
+                        out.append({"kind": "algo:" + nd["fq"].split("::")[-1], "range": a[0][2], "elem": ("var", lam.params[0]["n"], lam.params[0]["d"]),
+                                    "pred": lam.term(rets[0]["value"]), "node": nd, "pred_fn": lam})
+        elif nd["k"] == "CXXForRangeStmt":
+            d = fn.n(nd["loopvar"])["decls"][0]
+            body = fn.n(nd["body"])
+            ks = fn.kids(nd["body"]) if body["k"] == "CompoundStmt" else [nd["body"]]
+            ifs = [fn.n(x) for x in ks if fn.n(x)["k"] == "IfStmt"]
+            if len(ks) == 1 and len(ifs) == 1 and ifs[0].get("else") is None:
+                out.append({"kind": "loop", "range": fn.term(nd["range"]), "elem": ("var", d["n"], d["d"]), "pred": fn.term(ifs[0]["cond"]),
+                            "node": nd, "pred_fn": fn, "if": ifs[0]})
+    return out
